@@ -370,6 +370,158 @@ fn child_fresh(fd: i32) -> i32 {
     0
 }
 
+extern "C" fn odd_prev(_sig: c_int) {}
+
+/// Start state: a foreign handler installed with unusual flags (one-shot, no-defer). After the library took the signal
+/// over its handler must stay the disposition, with restart and siginfo, across deliveries.
+fn child_odd_flags(fd: i32) -> i32 {
+    use fork::wr;
+    let dispatcher = signal_hook_registry::verif::dispatcher_addr();
+    let cases: [(c_int, c_int); 4] = [
+        (libc::SIGUSR1, libc::SA_RESETHAND),
+        (libc::SIGUSR2, libc::SA_RESETHAND | libc::SA_NODEFER),
+        (libc::SIGHUP, libc::SA_NODEFER),
+        (libc::SIGWINCH, libc::SA_RESETHAND | libc::SA_RESTART),
+    ];
+    let mut delivered = 0;
+    for (i, (sig, flags)) in cases.iter().enumerate() {
+        unsafe { crate::sig::install_raw(*sig, odd_prev as usize, *flags) };
+        let tag = 100 + i;
+        if let Err(e) = unsafe { signal_hook_registry::register(*sig, move || ran(tag)) } {
+            wr(fd, &format!("BAD register({}) failed: {}\n", sig, e));
+            continue;
+        }
+        for round in 0..3 {
+            take_runlog();
+            unsafe { libc::raise(*sig) };
+            delivered += 1;
+            let got = take_runlog();
+            if got != vec![tag] {
+                wr(fd, &format!("BAD delivery #{} of signal {} (previous handler had flags {:#x}) ran actions {:?}, the model says [{}]\n", round + 1, sig, flags, got, tag));
+                break;
+            }
+            match crate::sig::disposition(*sig) {
+                Some((h, f)) if h == dispatcher && f & libc::SA_RESTART != 0 && f & libc::SA_SIGINFO != 0 => {}
+                other => {
+                    wr(fd, &format!("BAD after delivery #{} the disposition of taken-over signal {} is {:x?} (dispatcher is {:#x}; previous handler had flags {:#x})\n", round + 1, sig, other, dispatcher, flags));
+                    break;
+                }
+            }
+        }
+    }
+    wr(fd, &format!("STATS reg=4 unreg_live=0 unreg_stale=0 unreg_other=0 clear=0 deliver={} signals=4 maxlen=1\n", delivered));
+    wr(fd, "DONE\n");
+    0
+}
+
+/// Several threads register on ONE signal at the same time while the main thread keeps delivering it. Registrations only
+/// append: the action list of each delivery is a prefix of the next one's, each thread's own actions appear in its program
+/// order, and the last delivery has them all.
+fn child_append(seed: u64, rounds: u64, fd: i32) -> i32 {
+    use fork::wr;
+    use crate::director::{self, mode, RuleSpec};
+    director::install();
+    crate::set_thread(1, crate::class::MAIN);
+    let mut rng = Rng::new(seed);
+    let sig = libc::SIGUSR1;
+    let _keep = unsafe { signal_hook_registry::register(libc::SIGUSR2, || ()) };
+    // the signal is taken over (and has one permanent action) before anything is raised
+    let _first = unsafe { signal_hook_registry::register(sig, || ran(0xff_ff00)) };
+    let (nthreads, per) = (4usize, 6usize);
+    let mut deliveries = 0u64;
+    let mut regs = 0u64;
+    let mut bad = 0;
+    'rounds: for round in 0..rounds {
+        director::clear_rules();
+        for st in [crate::site::REG_CLONED, crate::site::REG_BEFORE_PUBLISH, crate::site::HL_W_LOCKED, crate::site::REG_DONE] {
+            director::set_rule(st, RuleSpec { mode: mode::DELAY, p: 30000, max: 1 + rng.below(3000) as u32, class_mask: crate::class::MUTATOR, ..Default::default() });
+        }
+        let go = std::sync::Arc::new(std::sync::atomic::AtomicBool::new(false));
+        let done = std::sync::Arc::new(AtomicUsize::new(0));
+        let mut js = Vec::new();
+        for t in 0..nthreads {
+            let (go, done) = (go.clone(), done.clone());
+            js.push(std::thread::spawn(move || {
+                crate::set_thread(10 + t as u32, crate::class::MUTATOR);
+                director::seed_thread(round * 8 + t as u64 + 1);
+                while !go.load(Ordering::SeqCst) {
+                    std::hint::spin_loop();
+                }
+                let mut ids = Vec::new();
+                for i in 0..per {
+                    let tag = ((round as usize & 0xff) << 16) | ((t + 1) << 8) | i;
+                    if let Ok(id) = unsafe { signal_hook_registry::register(sig, move || ran(tag)) } {
+                        ids.push(id);
+                    }
+                }
+                done.fetch_add(1, Ordering::SeqCst);
+                ids
+            }));
+        }
+        take_runlog();
+        go.store(true, Ordering::SeqCst);
+        let mut prev: Vec<usize> = Vec::new();
+        let mut finished_seen = false;
+        loop {
+            let all_done = done.load(Ordering::SeqCst) == nthreads;
+            unsafe { libc::raise(sig) };
+            deliveries += 1;
+            let cur = take_runlog();
+            let mut problem = None;
+            if cur.len() < prev.len() || cur[..prev.len()] != prev[..] {
+                problem = Some(format!("the previous delivery ran {:x?}, this one {:x?}: registrations only append, so the earlier list must be a prefix of the later one", prev, cur));
+            }
+            let mut seen = std::collections::HashSet::new();
+            let mut last_i = [-1i64; 8];
+            for tag in cur.iter() {
+                if !seen.insert(*tag) {
+                    problem = Some(format!("action {:x} ran twice in one delivery: {:x?}", tag, cur));
+                }
+                let (t, i) = ((tag >> 8) & 0xff, (tag & 0xff) as i64);
+                if t < 8 {
+                    if i <= last_i[t] {
+                        problem = Some(format!("actions of one registering thread out of its program order: {:x?}", cur));
+                    }
+                    last_i[t] = i;
+                }
+            }
+            if let Some(pb) = problem {
+                if bad < 2 {
+                    wr(fd, &format!("BAD round {}: concurrent registrations on one signal: {}\n", round, pb));
+                }
+                bad += 1;
+                break;
+            }
+            prev = cur;
+            if finished_seen {
+                break;
+            }
+            if all_done {
+                finished_seen = true;
+            }
+        }
+        let mut ids = Vec::new();
+        for j in js {
+            ids.extend(j.join().unwrap_or_default());
+        }
+        regs += ids.len() as u64;
+        if bad == 0 && prev.len() != nthreads * per + 1 {
+            wr(fd, &format!("BAD round {}: after {} registrations on signal {} had returned a delivery ran actions {:x?} ({} of them)\n", round, nthreads * per, sig, prev, prev.len()));
+            bad += 1;
+        }
+        for id in ids {
+            signal_hook_registry::unregister(id);
+        }
+        if bad > 0 {
+            break 'rounds;
+        }
+    }
+    director::uninstall();
+    wr(fd, &format!("STATS reg={} unreg_live={} unreg_stale=0 unreg_other=0 clear=0 deliver={} signals=1 maxlen=24\n", regs, regs, deliveries));
+    wr(fd, "DONE\n");
+    0
+}
+
 /// Two removers race for the same registration (unregister vs unregister, unregister vs unregister_signal):
 /// exactly one of them may report that it removed something.
 fn child_race_remove(seed: u64, rounds: u64, fd: i32) -> i32 {
@@ -436,7 +588,12 @@ pub fn main(args: &[String]) -> i32 {
         let race = crate::has_flag(args, "--race-remove");
         let res = fork::probe(600_000, false, move |fd| {
             if race {
-                if p == 0 { child_fresh(fd) } else { child_race_remove(s, ops, fd) }
+                match p {
+                    0 => child_fresh(fd),
+                    1 => child_odd_flags(fd),
+                    2 | 3 => child_append(s, (ops / 20).max(20), fd),
+                    _ => child_race_remove(s, ops, fd),
+                }
             } else if threads > 1 {
                 child_concurrent(s, ops, threads.min(4), fd)
             } else {
@@ -455,7 +612,7 @@ pub fn main(args: &[String]) -> i32 {
             inconclusive = Some("restart probe: reader never blocked".into());
         }
         for l in res.out.lines().filter(|l| l.starts_with("BAD ")) {
-            let sigv = if l.contains("exactly one may report") { "two-removers-both-true" } else if l.contains("fresh process") || l.contains("fresh-process") { "fresh-process-removal" } else if l.contains("handed out before") { "id-reused" } else if l.contains("ran actions") { "delivery-differs-from-model" }
+            let sigv = if l.contains("exactly one may report") { "two-removers-both-true" } else if l.contains("fresh process") || l.contains("fresh-process") { "fresh-process-removal" } else if l.contains("handed out before") { "id-reused" } else if l.contains("concurrent registrations on one signal") { "concurrent-registrations-not-appended" } else if l.contains("ran actions") { "delivery-differs-from-model" }
                 else if l.contains("unregister") { "unregister-result" } else if l.contains("disposition") { "disposition-not-kept" }
                 else if l.contains("restarted") { "blocking-read-interrupted" } else if l.contains("register(") { "register-failed" } else { "model-misc" };
             bad.push((sigv.into(), format!("{} [history seed {}]", &l[4..], s)));
